@@ -33,80 +33,58 @@
 #include <string.h>
 #include <libgen.h>
 
-// Insert the content of "etc_file.file_entry" into "fe" if there is no
-// group specified
-size_t insert_nogroup(econf_file *dest_kf, struct file_entry **fe,
-		      econf_file *ef) {
-  size_t etc_start = 0;
-  if (ef) {
-    while (etc_start < ef->length &&
-	   !strcmp(ef->file_entry[etc_start].group, KEY_FILE_NULL_VALUE)) {
-      (*fe)[etc_start] = cpy_file_entry(dest_kf, ef->file_entry[etc_start]);
-      etc_start++;
-    }
-  }
-  return etc_start;
-}
-
-// Merge contents from existing usr_file groups
+// Copy all entries of usr_file into "fe". If etc_file defines the same
+// group/key its (first) value is taken.
 // uf: usr_file, ef: etc_file
 size_t merge_existing_groups(econf_file *dest_kf, struct file_entry **fe, econf_file *uf,
 			     econf_file *ef, const size_t etc_start) {
-  bool new_key;
-  size_t merge_length = etc_start, tmp = etc_start, added_keys = etc_start;
+  size_t merge_length = etc_start;
   if (uf && ef) {
-    for (size_t i = 0; i <= uf->length; i++) {
-      // Check if the group has changed in the last iteration
-      if (i == uf->length ||
-	  (i && strcmp(uf->file_entry[i].group, uf->file_entry[i - 1].group))) {
-	for (size_t j = etc_start; j < ef->length; j++) {
-	  // Check for matching groups
-	  if (!strcmp(uf->file_entry[i - 1].group, ef->file_entry[j].group)) {
-	    new_key = true;
-	    for (size_t k = merge_length; k < i + tmp; k++) {
-	      // If an existing key is found in ef take the value from ef
-	      if (!strcmp((*fe)[k].key, ef->file_entry[j].key)) {
-		free((*fe)[k].value);
-		(*fe)[k].value = ef->file_entry[j].value ? strdup(ef->file_entry[j].value) : strdup("");
-		new_key = false;
-		break;
-	      }
-	    }
-	    // If a new key is found for an existing group append it to the group
-	    if (new_key)
-	      (*fe)[i + added_keys++] = cpy_file_entry(dest_kf, ef->file_entry[j]);
-	  }
+    for (size_t i = 0; i < uf->length; i++) {
+      (*fe)[merge_length] = cpy_file_entry(dest_kf, uf->file_entry[i]);
+      for (size_t j = 0; j < ef->length; j++) {
+	if (!strcmp(uf->file_entry[i].group, ef->file_entry[j].group) &&
+	    !strcmp(uf->file_entry[i].key, ef->file_entry[j].key)) {
+	  free((*fe)[merge_length].value);
+	  (*fe)[merge_length].value = ef->file_entry[j].value ? strdup(ef->file_entry[j].value) : strdup("");
+	  break;
 	}
-	merge_length = i + added_keys;
-	// Temporary value to reduce amount of iterations in inner for loop
-	tmp = added_keys;
       }
-      if (i != uf->length)
-	(*fe)[i + added_keys] = cpy_file_entry(dest_kf, uf->file_entry[i]);
+      merge_length++;
     }
   }
   return merge_length;
 }
 
-// Add entries from etc_file exclusive groups
+// Insert the entries which are defined in etc_file only: behind the last
+// entry of their group, in front of all other entries if they have no group
+// and at the end if their group is new.
 size_t add_new_groups(econf_file *dest_kf, struct file_entry **fe,
 		      econf_file *uf, econf_file *ef,
 		      const size_t merge_length) {
   size_t added_keys = merge_length;
-  bool new_key;
   if (uf && ef) {
-    for (size_t i = 0; i < ef->length; i++) {
-      if (!strcmp(ef->file_entry[i].group, KEY_FILE_NULL_VALUE))
-	continue;
-      new_key = true;
-      for (size_t j = 0; j < uf->length; j++) {
-	if (!strcmp(uf->file_entry[j].group, ef->file_entry[i].group)) {
-	  new_key = false;
-	  break;
+    for (size_t j = 0; j < ef->length; j++) {
+      bool new_key = true, group_found = false;
+      size_t pos = 0;
+      for (size_t k = 0; k < added_keys; k++) {
+	if (!strcmp((*fe)[k].group, ef->file_entry[j].group)) {
+	  if (!strcmp((*fe)[k].key, ef->file_entry[j].key)) {
+	    new_key = false;
+	    break;
+	  }
+	  group_found = true;
+	  pos = k + 1;
 	}
       }
-      if (new_key)
-	(*fe)[added_keys++] = cpy_file_entry(dest_kf, ef->file_entry[i]);
+      if (!new_key)
+	continue;
+      if (!group_found)
+	pos = strcmp(ef->file_entry[j].group, KEY_FILE_NULL_VALUE) ? added_keys : 0;
+      memmove(&(*fe)[pos + 1], &(*fe)[pos],
+	      (added_keys - pos) * sizeof(struct file_entry));
+      (*fe)[pos] = cpy_file_entry(dest_kf, ef->file_entry[j]);
+      added_keys++;
     }
     if (added_keys > 0)
       *fe = realloc(*fe, (added_keys) * sizeof(struct file_entry));
